@@ -300,6 +300,9 @@ func (m *Machine) callBuiltin(fr *frame, b *ssa.Builtin, args []Value, c *ssa.Ca
 	case "len":
 		switch x := args[0].(type) {
 		case SliceV:
+			if x.SymLen != nil {
+				return x.SymLen
+			}
 			return m.TT.BVConst(64, uint64(x.Len))
 		case StringV:
 			if x.Opaque != nil {
